@@ -93,7 +93,8 @@ class _FakeSock:
     write = send
 
     def sendto(self, data, addr):
-        self.drv._w(self.conn, data)
+        # a datagram goes where it is addressed, not to whoever sent the request being served
+        self.drv._w(addr[1] if isinstance(addr, tuple) and len(addr) == 2 and addr[0] == "peer" else 0, data)
         return len(data)
 
 
